@@ -58,6 +58,7 @@ def main():
     rc, out = sh(f"git -C /repo apply {patch} 2>&1 || git -C /repo apply --3way {patch}")
     if rc != 0:
         res["repo_apply"] = "FAILED: " + out[-400:]
+        sh("git -C /repo checkout HEAD -- . && git -C /repo clean -fdq")
         print(json.dumps(res, indent=1)); return
     try:
         for p in props:
